@@ -46,6 +46,9 @@ type HTTPOutcome struct {
 	// Damage, for Kind serve / lost-response: the link alters what the server receives
 	DamageBody   func([]byte) []byte
 	DamageHeader func(http.Header)
+	// BrokenResponseBody, for Kind serve: status and headers of the response arrive, the response
+	// announces a body, and the connection breaks before that body is complete
+	BrokenResponseBody bool
 	// CutBodyAt > 0: the connection is lost after that many body bytes; the server has been told the
 	// full Content-Length and its read ends with io.ErrUnexpectedEOF
 	CutBodyAt int
@@ -152,6 +155,11 @@ func (f *Fabric) RoundTrip(req *http.Request) (*http.Response, error) {
 			return nil, errConnReset
 		}
 		resp.Request = req
+		if out.BrokenResponseBody {
+			resp.ContentLength = 16
+			resp.Header.Set("Content-Length", "16")
+			resp.Body = io.NopCloser(io.MultiReader(bytes.NewReader([]byte("acc")), errReader{io.ErrUnexpectedEOF}))
+		}
 		return resp, nil
 	}
 	return nil, fmt.Errorf("fabric: unknown outcome %q", out.Kind)
